@@ -182,6 +182,17 @@ theorem evaluate_const_valC (lk : Bytes → Lookup) (isReg : Bytes → Bool) (ρ
           simp [isC, cval] at this
         | err e => simp [hn] at hc
         | panic => simp [hn] at hc
+      · rename_i u
+        have hv' := ((evaluate_inv_both lk isReg).1 a).2 e1 _ h1
+        cases hn : neutralizeRaw (.neg (.neg u)) with
+        | ok pr =>
+          obtain ⟨c1, y⟩ := pr
+          simp only [hn, Res.ok.injEq, Prod.mk.injEq] at hc
+          obtain ⟨_, rfl⟩ := hc
+          have := (neutralizeRaw_nb_all _ (nb_neg.2 ⟨hv', rfl⟩) rfl _ _ hn).2
+          simp [isC, cval] at this
+        | err e => simp [hn] at hc
+        | panic => simp [hn] at hc
       · rename_i x
         split at hc
         · simp at hc
